@@ -46,7 +46,7 @@ func (v Value) String() string {
 		return "NULL"
 	}
 	switch v.Kind {
-	case "bool", "int", "date", "ts":
+	case "bool", "int", "date", "ts", "infinity":
 		return fmt.Sprintf("%s(%d)", v.Kind, v.I)
 	case "f32":
 		return fmt.Sprintf("f32(%v/%#x)", math.Float32frombits(uint32(v.F)), v.F)
